@@ -268,6 +268,9 @@ class ReadPduTask(Task):
         st, p0, eof = g["stream"], g["pos0"], g["eof"]
         # ---------------- C02 (a): total classification
         I.ob(f"C02/{READ}/never-raises", kind == "return", detail=f"{kind}:{val!r}")
+        # the same fact is what C03's framing claims rest on: however the byte stream is cut or ends, the read finishes with an
+        # event (Evt17 for a stream that ends inside a PDU), never with an exception into the reactor
+        I.ob(f"C03/{READ}/every-way-the-stream-is-cut-or-ends-is-turned-into-an-event", kind == "return", detail=f"{kind}:{val!r}")
         if kind != "return":
             return
         I.ob(f"C02/{READ}/queues-exactly-one-event", len(events) == 1, detail=repr(events))
